@@ -90,7 +90,12 @@ def gen(c):
             add({"op": "decrypt", "iface": iface, "d": i2b(d), "ct": ct, "chunks": "%d" % rng.randrange(0, len(ct) + 1)}, decrypt_case(d, ct, "interop:%s:len%d" % (iface, ln), iface))
     # ---- the malformed-ciphertext space ----
     m = rb(20)
-    C1, C2, C3 = encrypt(P, m, rng.randrange(1, n))
+    # the ciphertext behind the encoding-form cases has a C3 that ends (and another that begins) in 00: a decoder that pads or strips a short HASH
+    # field then still "matches" -- exactly the encodings that must be refused
+    for _ in range(4000):
+        C1, C2, C3 = encrypt(P, m, rng.randrange(1, n))
+        if C3[-1] == 0:
+            break
     good = ct_der(C1, C3, C2)
     X, Y, H, Cc = dint(C1[0]), dint(C1[1]), doctets(C3), doctets(C2)
     inner = X + Y + H + Cc
